@@ -6,6 +6,10 @@ ALL = ["C%02d" % i for i in range(1, 21)]
 
 # id -> (engine, level, technique, text, note, design_ref)
 CHECKS = {
+ "C08": ("mc-seq", "exploration",
+   "exhaustive enumeration of ground-truth boot traces (parameters x permutations x interleavings) on the real lifecycle stage",
+   "Every trace of the stated product (1-3 ECUs, 1-3 boots, timestamp profiles, per-boot delays, off-times, all message permutations inside a boot, all interleavings of the ECU streams) that satisfies the property's premise is run through the real detector and compared with the generator's ground truth: one lifecycle per boot, message assignment, start = boot+delay, end = start+max timestamp, counts. Candidates outside the premise are counted, not judged.",
+   "Trusted: ground-truth generator. Known finding (delay drop > off-time fuses boots) is keyed by a predicate on the ground truth; everything outside it is judged exactly.", "4 C08"),
  "C13": ("mc-sched", "model_checking",
    "controlled-scheduler exploration of real threads (shuttle runtime, own delay-/preemption-bounded DFS scheduler) over the real stage functions and bounded channels",
    "All schedules within the stated delay bound (every pipeline shape) and preemption bound (the shapes where it stays feasible) of 3-6 real threads running adlt's real stage functions over real sync_channels of capacity 0/1/2 written through the real blocking-send helper are executed; drained pipelines must equal the sequential unbounded reference (sequence, or multiset when sorted, and final lifecycle table), dropped consumers must let every thread terminate (shuttle reports a deadlock otherwise). Also checks in the consumer thread that each delivered message's lifecycle is already published (C06, cross-thread).",
